@@ -74,6 +74,12 @@ class SymArray(np.ndarray):
             if ufunc in _CMP:
                 op = _CMP[ufunc]
                 r = _elem(lambda a, b: to_S(a)._cmp(to_S(b), op), 2)(*ins)
+                # a comparison that the assumptions decide for every element is an ordinary boolean array
+                # (usable as a mask); otherwise the symbolic conditions are kept
+                if isinstance(r, np.ndarray) and r.size <= 64:
+                    flat = [core.resolve_B(x) for x in r.reshape(-1)]
+                    if all(v is not None for v in flat):
+                        r = np.array(flat, dtype=bool).reshape(r.shape)
                 return self._store(r, out)
             if ufunc is np.absolute:
                 return self._store(_sabs(ins[0]), out)
